@@ -713,3 +713,54 @@ Definition mem_type_gen (name : string) : string :=
 '''
     write_if_changed(os.path.join(GEN, "KernelRules_gen.v"), text)
     return "gen/KernelRules_gen.v"
+
+
+# ---- the launch-call names of hta/common/trace_symbol_table.py -> coq/gen/LaunchNames_gen.v ----
+def gen_launch_names() -> str:
+    """Reads TraceSymbolTable.get_runtime_launch_events_query: every `x_id = self.sym_index.get("<name>", self.NULL)` binding, and the returned
+    f-string, which must be `((name == {a_id}) or ... ) and (index_correlation > 0)` over exactly the bound ids."""
+    path = "hta/common/trace_symbol_table.py"
+    tree = ast.parse(open(os.path.join(fw.REPO, path)).read())
+    cls = next((n for n in tree.body if isinstance(n, ast.ClassDef) and n.name == "TraceSymbolTable"), None)
+    fn = next((n for n in (cls.body if cls else []) if isinstance(n, ast.FunctionDef) and n.name == "get_runtime_launch_events_query"), None)
+    if fn is None:
+        raise Stop("TraceSymbolTable.get_runtime_launch_events_query not found")
+    names: Dict[str, str] = {}
+    ret = None
+    for st in fn.body:
+        if isinstance(st, ast.Expr) and isinstance(st.value, ast.Constant):
+            continue
+        if isinstance(st, ast.Assign) and len(st.targets) == 1 and isinstance(st.targets[0], ast.Name):
+            v = st.value
+            if not (isinstance(v, ast.Call) and ast.unparse(v.func) == "self.sym_index.get" and len(v.args) == 2 and isinstance(v.args[0], ast.Constant)
+                    and isinstance(v.args[0].value, str) and ast.unparse(v.args[1]) == "self.NULL"):
+                raise Stop(f"get_runtime_launch_events_query: {ast.unparse(st)[:80]} is not `x = self.sym_index.get(<name>, self.NULL)`")
+            names[st.targets[0].id] = v.args[0].value
+        elif isinstance(st, ast.Return):
+            ret = st.value
+        else:
+            raise Stop(f"get_runtime_launch_events_query: statement {type(st).__name__}")
+    if not isinstance(ret, ast.JoinedStr):
+        raise Stop("get_runtime_launch_events_query: does not return an f-string")
+    text, used = "", []
+    for part in ret.values:
+        if isinstance(part, ast.Constant):
+            text += part.value
+        elif isinstance(part, ast.FormattedValue) and isinstance(part.value, ast.Name) and part.value.id in names:
+            text += "@"
+            used.append(part.value.id)
+        else:
+            raise Stop("get_runtime_launch_events_query: unexpected part in the f-string")
+    want = "((" + ") or (".join(["name == @"] * len(used)) + ")) and (index_correlation > 0)"
+    if text.replace("  ", " ") != want or sorted(used) != sorted(names):
+        raise Stop(f"get_runtime_launch_events_query: query text {text!r} is not a disjunction over all bound names with `index_correlation > 0`")
+    lst = [names[u] for u in used]
+    out = f'''(* GENERATED by harness/translate.py from hta/common/trace_symbol_table.py (TraceSymbolTable.get_runtime_launch_events_query) -- do not edit.
+   The query is  (name is one of these) and (index_correlation > 0). *)
+From HTA.lib Require Import Base.
+
+Definition launch_names_gen : list string :=
+  {fw.sl(lst)}.
+'''
+    write_if_changed(os.path.join(GEN, "LaunchNames_gen.v"), out)
+    return "gen/LaunchNames_gen.v"
